@@ -261,17 +261,18 @@ struct Collected {
 
 const AUDIT_STRIDE: u64 = 50;
 
-fn is_known(known: &[known::Known], prop: &str, tier: Tier, master: u64, index: u64, v: &Violation) -> bool {
+fn is_known(known: &[known::Known], prop: &str, tier: Tier, master: u64, index: u64, v: &Violation) -> Option<String> {
     if known.is_empty() {
-        return false;
+        return None;
     }
     let spec = props::gen(prop, crate::run_seed(master, prop, index), tier);
-    known::matches(known, v, &spec).is_some()
+    known::matches(known, v, &spec).map(|k| k.id.clone())
 }
 
 fn record_violation(g: &mut Collected, known: &[known::Known], prop: &str, tier: Tier, master: u64, i: u64, v: Violation) {
-    if is_known(known, prop, tier, master, i, &v) {
-        let c = g.known_counts.entry(v.sig()).or_default();
+    if let Some(id) = is_known(known, prop, tier, master, i, &v) {
+        // one representative per listed finding (two findings may share a panic site)
+        let c = g.known_counts.entry(format!("{} [{}]", v.sig(), id)).or_default();
         *c += 1;
         if *c <= 1 {
             g.violations.push((i, v));
@@ -571,16 +572,22 @@ pub fn check(prop: &str, tier: Tier) -> i32 {
     let mut seen_sig: BTreeSet<String> = BTreeSet::new();
     let mut iso = Isolated::new();
     for (index, v) in &col.violations {
-        if !seen_sig.insert(v.sig()) {
+        let seed = crate::run_seed(master, prop, *index);
+        let original = props::gen(prop, seed, tier);
+        // which listed finding (if any) this is, judged on the run as it happened
+        let k_orig: Option<String> = known::matches(&known, v, &original).map(|k| k.id.clone());
+        if !seen_sig.insert(format!("{}|{:?}", v.sig(), k_orig)) {
             continue;
         }
         if findings.len() >= 6 {
             break;
         }
-        let seed = crate::run_seed(master, prop, *index);
-        let original = props::gen(prop, seed, tier);
         let mut budget = minimise::Budget::new(env_u64("VERIF_MIN_CANDIDATES", 2000) as u32, env_u64("VERIF_MIN_SECS", 15));
-        let mut runner = |s: &ScenarioSpec| -> Option<Violation> { iso.run(s).ok().and_then(|r| r.violation) };
+        // a candidate only counts as "the same failure" if it is the same listed finding, or equally unlisted:
+        // shrinking must never turn a new violation into a listed one (or one listed finding into another)
+        let mut runner = |s: &ScenarioSpec| -> Option<Violation> {
+            iso.run(s).ok().and_then(|r| r.violation).filter(|cv| known::matches(&known, cv, s).map(|k| k.id.clone()) == k_orig)
+        };
         // confirm in isolation first
         let confirmed = runner(&original);
         let (minimised, target) = match confirmed {
@@ -600,7 +607,7 @@ pub fn check(prop: &str, tier: Tier) -> i32 {
         let final_rep = iso.run(&minimised).ok();
         let final_v = final_rep.as_ref().and_then(|r| r.violation.clone()).unwrap_or(target.clone());
         let path = write_replay(prop, tier, master, *index, &original, &minimised, &final_v, final_rep.as_ref());
-        let k = known::matches(&known, &final_v, &minimised).map(|k| k.id.clone());
+        let k = known::matches(&known, &final_v, &minimised).map(|k| k.id.clone()).filter(|id| Some(id) == k_orig.as_ref());
         findings.push(Finding {
             index: *index,
             violation: final_v,
